@@ -57,14 +57,14 @@ def selfcheck():
 _CACHE = {}
 
 
-def compile_program(prog):
-    key = repr(prog)
+def compile_program(prog, wrap_width=None):
+    key = repr((prog, wrap_width))
     if key in _CACHE:
         return _CACHE[key]
     text, _ = G.render_program(prog, [])
     symbols = fsic.parse_model(text)
     Py = fsic.build_model(symbols)
-    ftext = build_fortran_definition(symbols)
+    ftext = build_fortran_definition(symbols) if wrap_width is None else build_fortran_definition(symbols, wrap_width=wrap_width)
     try:
         eng = FC.Engine(ftext)
     except FC.CompileError as e:
@@ -164,7 +164,7 @@ def check_case(case):
     res = Result(classes=sorted(feats))
     risky = risky_literals(prog)
     lit = ('/literal:' + '+'.join(risky)) if risky else ''
-    built = attempt(compile_program, prog)
+    built = attempt(compile_program, prog, case.get('wrap_width'))
     if not built.ok:
         res.tag('skipped:python-side-rejected')
         return res
@@ -373,7 +373,8 @@ def runs_strategy():
 
 def strategy():
     from hypothesis import strategies as st
-    return st.fixed_dictionaries({'prog': restricted_programs(), 'runs': runs_strategy()})
+    return st.fixed_dictionaries({'prog': restricted_programs(), 'runs': runs_strategy(),
+                                  'wrap_width': st.sampled_from([None, None, None, 60, 80, 120])})
 
 
 def V(name, idx=None, kind='v'):
@@ -458,6 +459,12 @@ def gen_fixed():
     def gen():
         for prog, runs in fixed_family():
             yield {'prog': prog, 'runs': runs}
+        # the wrapping equations again under other line widths
+        fam = fixed_family()
+        for ww in (60, 72, 120):   # (132 + indentation and continuation markers exceeds the free-form line limit: the caller's choice)
+            for prog, runs in fam:
+                if any('Total' in str(s_) or 'Product' in str(s_) for s_ in prog):
+                    yield {'prog': prog, 'runs': runs[:1], 'wrap_width': ww}
     return gen
 
 
